@@ -536,6 +536,40 @@ fn run_all(rep: &mut Report, ctx_seed: u64, n: usize, thorough: bool) {
             directed.push(T::List(vec![T::Int(1), pt(), a()]));
             directed.push(T::List(vec![T::Sym("list".to_string()), pt(), T::Sym("vector".to_string())]));
         }
+        // round 7: every pair of atom kinds adjacent to one another and separated by a punctuation
+        // symbol (a keyword, quoted symbol or literal followed by `-` and an identifier must stay
+        // three elements: token streams carry no whitespace, so joining is never justified)
+        {
+            let kinds: Vec<fn() -> T> = vec![
+                || T::KwOcto("start".to_string()),
+                || T::KwColon("from".to_string()),
+                || T::KwStr("k w".replace(' ', "-")),
+                || T::SymQ("q-s".to_string()),
+                || T::Sym("offset".to_string()),
+                || T::Int(7),
+                || T::FloatLit("2.5".to_string()),
+                || T::Str("s".to_string()),
+                || T::Char('c'),
+                || T::True,
+                || T::Nil,
+            ];
+            let ps = ["+", "-", "*", "/", "<", "<=", "->", "...", "!", "?", "=>", "-=", "@", "~"];
+            for (i, ka) in kinds.iter().enumerate() {
+                for (j, kb) in kinds.iter().enumerate() {
+                    directed.push(T::List(vec![ka(), kb()]));
+                    directed.push(T::Vector(vec![ka(), kb(), ka()]));
+                    for (n, p) in ps.iter().enumerate() {
+                        let pt = T::Punct(p.to_string());
+                        directed.push(T::List(vec![ka(), pt.clone(), kb()]));
+                        if (i + j + n) % 3 == 0 {
+                            directed.push(T::Vector(vec![ka(), pt.clone(), kb()]));
+                            directed.push(T::Dotted(vec![ka(), pt.clone()], Box::new(kb())));
+                            directed.push(T::List(vec![T::List(vec![ka(), pt.clone(), kb()]), pt.clone(), kb()]));
+                        }
+                    }
+                }
+            }
+        }
         for j in 0..UNQ_EXPRS.len() {
             directed.push(T::UnquoteExpr(j));
             directed.push(T::List(vec![a(), T::UnquoteExpr(j), b()]));
